@@ -143,6 +143,7 @@ def run(tier, seed, replay):
     for r in vf.pmap(c07.judge, [(p,) for p in jouts]):
         rep.evaluations += r["n"]
         rep.count("jwk.items_error", r["c"].get("items_error", 0)); rep.count("jwk.items_good", r["c"].get("items_good", 0))
+        msgs |= r.get("msgs", set())
         for k, what, wit in r["viol"]:
             if k in ("item-error-empty-message", "notjson-empty-message"):
                 rep.violation("jwk:" + k, what, wit)
